@@ -33,6 +33,7 @@ import (
 	"sort"
 	"strconv"
 	"strings"
+	"time"
 
 	_ "modernc.org/sqlite"
 
@@ -311,7 +312,10 @@ func (w *world) run(c tcase) outcome {
 	w.srv.Fresh()
 	w.ev = w.ev[:0]
 
+	t0 := time.Now()
 	status, resp, _ := w.srv.Do("POST", "/dsns/"+dsnName+"/tables/@transaction", body, nil)
+	prof["do"] += time.Since(t0)
+	defer func(t time.Time) { prof["after"] += time.Since(t) }(time.Now())
 
 	out.Status = status
 	out.Body = clip(strings.Join(strings.Fields(string(resp)), " "), 300)
@@ -364,7 +368,9 @@ func (w *world) run(c tcase) outcome {
 	out.After = dump(w.probe)
 
 	// release whatever the handler left behind, then put the database back
+	t1 := time.Now()
 	vsql.VerifCloseAll()
+	prof["closeall"] += time.Since(t1)
 
 	if out.After != w.pristine || dump(w.probe) != w.pristine {
 		w.reset()
@@ -372,6 +378,8 @@ func (w *world) run(c tcase) outcome {
 
 	return out
 }
+
+var prof = map[string]time.Duration{}
 
 type sink struct {
 	r *report.R
@@ -423,7 +431,15 @@ func (s sink) judge(c tcase, o outcome) {
 	r.Add("mechanism:"+mech, 1)
 }
 
-func tierLen(r *report.R) int { return r.Pick(3, 4) }
+func tierLen(r *report.R) int {
+	if v := os.Getenv("VERIF_C17_LEN"); v != "" {
+		n, _ := strconv.Atoi(v)
+
+		return n
+	}
+
+	return r.Pick(3, 4)
+}
 
 func worker(spec, partial string) {
 	var i, n int
@@ -446,6 +462,10 @@ func worker(spec, partial string) {
 			r.Sample(map[string]any{"case": c.name(), "mechanism": c.Mech, "failure_position": c.Pos, "status": o.Status, "all_applied_possible": o.AllApplied != ""})
 		}
 	})
+
+	if os.Getenv("VERIF_C17_PROF") != "" {
+		fmt.Fprintf(os.Stderr, "worker %d: %v evals=%d resets=%d\n", i, prof, r.Evals(), w.resets)
+	}
 
 	r.Add("database_resets", int64(w.resets))
 	r.SavePartial(partial)
@@ -510,6 +530,10 @@ func main() {
 		cmd.Env = append(os.Environ(), "GOMAXPROCS=2")
 		out, err := cmd.CombinedOutput()
 		results[i] = res{p, err, out}
+
+		if os.Getenv("VERIF_C17_PROF") != "" {
+			fmt.Print(string(out))
+		}
 	})
 
 	for i, rs := range results {
